@@ -385,6 +385,8 @@ def show(v, depth=0):
     """A structural description of a value in which NaN equals NaN and object identities do not matter."""
     if isinstance(v, float):
         return ("float", "nan") if v != v else ("float", repr(v))
+    if isinstance(v, __import__("enum").Enum):
+        return (type(v).__name__, v.name)            # (the repr of a module-level enum names the module: copies differ in that)
     if isinstance(v, complex):
         return ("complex", show(v.real), show(v.imag))
     if isinstance(v, (int, str, bytes, bool, type(None), decimal.Decimal, fractions.Fraction)):
@@ -411,26 +413,27 @@ def call(func, args):
     return out, buf.getvalue(), show(list(args))
 
 
-def load_plain(name, directory):
+def load_plain(name, directory, source=None):
     """The module, uninstrumented (own file name so that monitoring can tell its code objects)."""
     import importlib.util
     path = os.path.join(directory, name + ".py")
     with open(path, "w", encoding="utf-8") as f:
-        f.write(SOURCE)
+        f.write(SOURCE if source is None else source)
     spec = importlib.util.spec_from_file_location(name, path)
     mod = importlib.util.module_from_spec(spec)
+    sys.modules[name] = mod          # (modules such as calendar look themselves up in sys.modules while they are imported)
     spec.loader.exec_module(mod)
     return mod, path
 
 
-def load_instrumented(name, directory, metrics):
+def load_instrumented(name, directory, metrics, source=None):
     import importlib
     import pynguin.configuration as config
     from pynguin.instrumentation.machinery import install_import_hook
     from pynguin.instrumentation.tracer import SubjectProperties
     path = os.path.join(directory, name + ".py")
     with open(path, "w", encoding="utf-8") as f:
-        f.write(SOURCE)
+        f.write(SOURCE if source is None else source)
     if directory not in sys.path:
         sys.path.insert(0, directory)
     sys.modules.pop(name, None)
